@@ -498,7 +498,8 @@ def canon_ids(res):
 def strip_fp(n):
     if n is None:
         return None
-    out = {k: n[k] for k in ("id", "k", "f", "p", "v") if k in n}
+    # (an unevaluated expression is dumped in Go's own notation for it: compared as a node, not by its text)
+    out = {k: n[k] for k in ("id", "k", "f", "p", "v") if k in n and not (k == "v" and n.get("k") == "dyn")}
     if n.get("d"):
         out["d"] = {k: strip_fp(c) for k, c in n["d"].items()}
     if n.get("a"):
